@@ -292,7 +292,12 @@ func (s *Session) Run(ctx context.Context, dir string, args ...string) error {
 									if err != nil {
 										return err
 									}
-									bss = []match.Bindings{exe.Bs}
+									if exe.Bs == nil {
+										// The guard rejected these bindings.
+										bss = nil
+									} else {
+										bss = []match.Bindings{exe.Bs}
+									}
 								}
 							}
 							if bss != nil {
